@@ -147,6 +147,14 @@ class OracleRO:
     def sum(self, e, axis=None):
         return np.sum(e, axis=axis)
 
+    def kldiv(self, p, q, r):
+        """sum p log(p/q) <= r (a constraint)"""
+        return self.le(OAtom('kldiv', p, params=q), r)
+
+    def expcone(self, y, x, z):
+        """z*exp(x/z) <= y (a constraint)"""
+        return self.le(OAtom('pexp', parr(x).reshape(1), params=parr(z).reshape(1)), parr(y).reshape(1))
+
     def rsocone(self, x, y, z):
         """sum(x**2) <= y*z, y >= 0, z >= 0"""
         xs = list(parr(x).reshape(-1))
@@ -319,6 +327,12 @@ class RealRO:
 
     def sum(self, e, axis=None):
         return e.sum(axis=axis) if axis is not None else e.sum()
+
+    def kldiv(self, p, q, r):
+        return self.rso.kldiv(p, q, r)
+
+    def expcone(self, y, x, z):
+        return self.rso.expcone(y, x, z)
 
     def rsocone(self, x, y, z):
         return self.rso.rsocone(x, y, z)
